@@ -7,7 +7,8 @@ REQUIRED = ['Petl.C15.' + n for n in (
     'json_roundtrip csv_codec_ok csv_roundtrip_concrete csv_append_roundtrip').split()] + \
     ['Petl.Csv.' + n for n in 'read_write read_write_no_error run_writeRow run_writeAll run_escape'.split()]
 
-ALPHA = ['a', 'b', ',', ';', '|', '\t', '"', "'", '\r', '\n', '\r\n', ' ', 'é', 'ß', '€', '\U0001F600', '\\', '0', '']
+ALPHA = ['a', 'b', ',', ';', '|', '\t', '"', "'", '\r', '\n', '\r\n', ' ', 'é', 'ß', '€', '\U0001F600', '\\', '0', '',
+         '\x0b', '\x0c', '\x1c', '\x1d', '\x1e', '\x85', '\u2028', '\u2029']      # Unicode line boundaries that are not csv line ends
 TYPED = [None, 1, -2, 2.5, True, False, 'x']
 
 
